@@ -22,6 +22,8 @@ FILE *sym_file_new(void);
 void sym_file_rewind(FILE *f);
 void sym_file_set_len(FILE *f, int64_t n);
 int64_t sym_file_len(FILE *f);
+void sym_file_poke(FILE *f, int64_t pos, int32_t byte); /* overwrite one byte of the file image */
+int32_t sym_file_peek(FILE *f, int64_t pos);
 
 /* name helper: "x" + index -> static buffer per call site is the caller's job */
 static inline const char *
